@@ -37,6 +37,7 @@ class WireJson(Harness):
     def shards(self, tier):
         out = [{"kind": "executor-msg", "cls": i} for i in range(15)] + [{"kind": "report"}, {"kind": "gateway"}]
         out += [{"kind": "submit", "n": n, "multi": list(m)} for n in (1, 2) for m in itertools.product([0, 1], repeat=n)]
+        out += [{"kind": "instance-file", "n": n, "multi": list(m)} for n in (1, 2) for m in itertools.product([0, 1], repeat=n)]
         for n in (0, 1, 2, 3):
             for multi in itertools.product([0, 1], repeat=n):
                 if n == 3 and tier == "quick" and sum(multi) > 1:
@@ -51,7 +52,14 @@ class WireJson(Harness):
         return {"executor_message_classes": 15, "job_tasks": "0..3", "int_palette": INTS, "string_palette": [s[:8] for s in STRS], "bytes_palette": [len(b) for b in BYTES]}
 
     def functions(self):
-        return [serde.ser_message, serde.des_message, report.serialize, report.deserialize, g_client.parse_request, g_client.serialize_response, g_client.request_response, JobInstance]
+        return [serde.ser_message, serde.des_message, report.serialize, report.deserialize, g_client.parse_request, g_client.serialize_response, g_client.request_response, JobInstance] + self._file_sites()
+
+    @staticmethod
+    def _file_sites():
+        import cascade.benchmarks.__main__ as bench
+        import cascade.gateway.router as router
+
+        return [router._spawn_local, router._spawn_slurm, bench.get_job]
 
     def body(self, ch, params):
         with ch.untraced():
@@ -84,6 +92,8 @@ class WireJson(Harness):
                 self.gateway(ch)
             elif k == "submit":
                 self.submit(ch, params)
+            elif k == "instance-file":
+                self.instance_file(ch, params)
             else:
                 job, spec = h_ctrl.build_job(ch, params["n"], params["multi"], params["n"] <= 1, None, with_ext=params["n"] <= 2)
                 ch.note("msg", {"tasks": len(job.tasks), "edges": len(job.edges)})
@@ -146,6 +156,66 @@ class WireJson(Harness):
         for t in job.tasks:
             if list(gj.tasks[t].definition.output_schema) != list(job.tasks[t].definition.output_schema):
                 raise Violation("output-declaration-order-lost", f"{t}: {list(gj.tasks[t].definition.output_schema)} vs {list(job.tasks[t].definition.output_schema)}")
+
+    def instance_file(self, ch, params):
+        """The gateway hands a submitted job instance to the controller process as a JSON file: the real writer
+        (router._spawn_local / _spawn_slurm) and the real reader (benchmarks.__main__.get_job) over an in-memory open()."""
+        import io
+        import types
+
+        import cascade.benchmarks.__main__ as bench
+        import cascade.gateway.router as router
+
+        job, spec = h_ctrl.build_job(ch, params["n"], params["multi"], False, None, with_ext=True)
+        files: dict = {}
+
+        class W(io.BytesIO):
+            def __init__(self, path):
+                super().__init__()
+                self.path = path
+
+            def close(self):
+                files[self.path] = self.getvalue()
+                super().close()
+
+        def fake_open(path, mode="r", *a, **k):
+            if "w" in mode or "a" in mode:
+                return W(path) if "b" in mode else io.StringIO()
+            if path not in files:
+                raise FileNotFoundError(path)
+            return io.BytesIO(files[path])
+
+        launched = []
+        fake_sp = types.SimpleNamespace(Popen=lambda *a, **k: launched.append(a), run=lambda *a, **k: launched.append(a))
+        slurm = ch.flag("slurm")
+        js = g_api.JobSpec(benchmark_name=None, envvars={}, job_instance=job, workers_per_host=1, hosts=1, use_slurm=slurm)
+        old = (router.__dict__.get("open"), router.subprocess, bench.__dict__.get("open"))
+        router.open, router.subprocess, bench.open = fake_open, fake_sp, fake_open
+        try:
+            try:
+                (router._spawn_slurm if slurm else router._spawn_local)(js, "tcp://gw:2", "job-1")
+            except Exception as e:
+                raise Violation(f"instance-file-writer-raised-{type(e).__name__}", str(e)[:200])
+            paths = [p for p in files if p.endswith(".json")]
+            if len(paths) != 1:
+                raise Violation("instance-file-not-written", str(sorted(files)))
+            try:
+                back = bench.get_job(None, paths[0])
+            except Exception as e:
+                raise Violation(f"instance-file-reader-raised-{type(e).__name__}", str(e)[:200])
+        finally:
+            for mod, name, val in ((router, "open", old[0]), (bench, "open", old[2])):
+                if val is None:
+                    mod.__dict__.pop(name, None)
+                else:
+                    setattr(mod, name, val)
+            router.subprocess = old[1]
+        ch.note("msg", {"tasks": len(job.tasks), "edges": len(job.edges), "via": "slurm" if slurm else "local"})
+        if back != job:
+            raise Violation("job-instance-json-roundtrip", "job instance differs after gateway -> file -> controller")
+        for t in job.tasks:
+            if list(back.tasks[t].definition.output_schema) != list(job.tasks[t].definition.output_schema):
+                raise Violation("output-declaration-order-lost", f"{t}: {list(back.tasks[t].definition.output_schema)} vs {list(job.tasks[t].definition.output_schema)}")
 
     def gateway(self, ch):
         which = ch.pick(7, "which")
